@@ -18,7 +18,7 @@ import types as pytypes
 
 import z3
 
-from .ctx import Ctx, Infeasible, PathEnd, Unsupported
+from .ctx import Ctx, Infeasible, MergeAbort, PathEnd, Unsupported
 from .sym import *  # noqa: F401,F403
 from .types import *  # noqa: F401,F403
 from . import types as T
@@ -42,6 +42,13 @@ class PyExc(Exception):
 class ReturnSig(Exception):
     def __init__(self, value):
         self.value = value
+
+
+class CutReached(Exception):
+    """execution of the target function reached the contract's cut point"""
+
+    def __init__(self, frame):
+        self.frame = frame
 
 
 class BreakSig(Exception):
@@ -145,6 +152,8 @@ def instance_fields(cls):
                     out.setdefault(st.target.id, (st.annotation, globs))
             elif isinstance(st, ast.Assign):
                 for t in st.targets:
+                    if isinstance(t, ast.Name) and t.id != "__slots__" and isinstance(st.value, ast.Constant) and st.value.value is not None:
+                        out.setdefault(t.id, (ast.Name(id=type(st.value.value).__name__, ctx=ast.Load()), globs))
                     if isinstance(t, ast.Name) and t.id == "__slots__":
                         try:
                             for s in ast.literal_eval(st.value):
@@ -233,6 +242,15 @@ class LoopSpec:
         self.extra_havoc = list(extra_havoc)
 
 
+def find_stmt(body, text):
+    """index of the first top-level statement whose source starts with `text` (whitespace-normalised)"""
+    want = " ".join(text.split())
+    for k, st in enumerate(body):
+        if " ".join(ast.unparse(st).split()).startswith(want):
+            return k
+    return None
+
+
 def loop_key(node):
     if isinstance(node, ast.For):
         return f"for {ast.unparse(node.target)} in {ast.unparse(node.iter)}"
@@ -251,6 +269,7 @@ class Interp:
         self.used_loops = set()
         self.functions_entered = {}
         self.pure_mode = False
+        self.cut_at = None
 
     # ------------------------------------------------------------------ values
     def reflect(self, obj, name="const"):
@@ -317,6 +336,8 @@ class Interp:
             return SBytes(c.fresh(name, BytesS), ty.mutable)
         if isinstance(ty, TAny):
             return SOpaque(c.fresh_name(name))
+        if isinstance(ty, TOpt) and isinstance(ty.inner, (TInt, TBool, TStr, TFloat)):
+            return SOpt(c.fresh(name + "?none", BoolS), self.make(ty.inner, name))
         if isinstance(ty, TOpt):
             if c.choose(2, "opt") == 0:
                 return self.make(ty.inner, name)
@@ -354,6 +375,8 @@ class Interp:
     # ------------------------------------------------------------------ truth / equality
     def truth(self, v):
         """z3 Bool for bool(v)"""
+        if isinstance(v, SOpt):
+            return z3.And(z3.Not(v.isnone), self.truth(v.val))
         if isinstance(v, SBool):
             return v.t
         if isinstance(v, SInt):
@@ -403,6 +426,13 @@ class Interp:
 
     def eq(self, a, b):
         """z3 Bool for a == b"""
+        if isinstance(a, SOpt) or isinstance(b, SOpt):
+            if isinstance(a, SOpt) and isinstance(b, SOpt):
+                return z3.Or(z3.And(a.isnone, b.isnone), z3.And(z3.Not(a.isnone), z3.Not(b.isnone), self.eq(a.val, b.val)))
+            o, x = (a, b) if isinstance(a, SOpt) else (b, a)
+            if isinstance(x, SNoneT):
+                return o.isnone
+            return z3.And(z3.Not(o.isnone), self.eq(o.val, x))
         if isinstance(a, SBool) and isinstance(b, SBool):
             return a.t == b.t
         if isinstance(a, (SInt, SBool)) and isinstance(b, (SInt, SBool)):
@@ -468,7 +498,9 @@ class Interp:
 
     def contains(self, container, x):
         """z3 Bool for x in container"""
-        c = container
+        c = self.unopt(container)
+        if isinstance(c, (ZVal, SStr, SBytes)):
+            x = self.unopt(x)
         if isinstance(c, (STuple, SList, SSet)):
             return z3.Or([self.eq(x, e) for e in c.items] + [z3.BoolVal(False)])
         if isinstance(c, SDict):
@@ -479,9 +511,10 @@ class Interp:
             if isinstance(c.ty, TSeq):
                 return z3.Contains(c.t, z3.Unit(unwrap(c.ty.elem, x)))
             if isinstance(c.ty, TSet):
+                x = self.key_of(c.ty, x)
                 if isinstance(x, SNoneT) or (scalar_kind(x) and not kinds_compatible(c.ty.elem, x)):
                     return z3.BoolVal(False)
-                return z3.Select(c.t, unwrap(c.ty.elem, self.key_of(c.ty, x)))
+                return z3.Select(c.t, unwrap(c.ty.elem, x))
             if isinstance(c.ty, TMap):
                 if isinstance(x, SNoneT):
                     return z3.BoolVal(False)
@@ -509,8 +542,66 @@ class Interp:
     def subset(self, a, b):
         return z3.And([self.contains(b, e) for e in a.items] + [z3.BoolVal(True)])
 
+    # ------------------------------------------------------------------ optionals / merging
+    def unopt(self, v):
+        """resolve a symbolic Optional scalar to NONE or its value (forks only if undetermined)"""
+        if not isinstance(v, SOpt):
+            return v
+        if self.ctx.branch(v.isnone):
+            return NONE
+        return v.val
+
+    def merge_values(self, c, a, b):
+        """value equal to a if c else b, or MergeAbort"""
+        if a is b:
+            return a
+        if isinstance(a, (SInt, SBool)) and isinstance(b, (SInt, SBool)):
+            if isinstance(a, SBool) and isinstance(b, SBool):
+                return SBool(simp(z3.If(c, a.t, b.t)))
+            return SInt(simp(z3.If(c, as_int(a), as_int(b))))
+        if isinstance(a, SStr) and isinstance(b, SStr):
+            return SStr(simp(z3.If(c, a.t, b.t)))
+        if isinstance(a, SFloat) and isinstance(b, SFloat):
+            return SFloat(simp(z3.If(c, a.t, b.t)))
+        if isinstance(a, SNoneT) and isinstance(b, SNoneT):
+            return NONE
+        if isinstance(a, (SOpt, SNoneT, SInt, SBool, SStr, SFloat)) and isinstance(b, (SOpt, SNoneT, SInt, SBool, SStr, SFloat)):
+            an = a.isnone if isinstance(a, SOpt) else z3.BoolVal(isinstance(a, SNoneT))
+            bn = b.isnone if isinstance(b, SOpt) else z3.BoolVal(isinstance(b, SNoneT))
+            av = a.val if isinstance(a, SOpt) else a
+            bv = b.val if isinstance(b, SOpt) else b
+            if isinstance(av, SNoneT):
+                av = bv
+            if isinstance(bv, SNoneT):
+                bv = av
+            if isinstance(av, SNoneT):
+                return NONE
+            return SOpt(simp(z3.If(c, an, bn)), self.merge_values(c, av, bv))
+        if isinstance(a, STuple) and isinstance(b, STuple) and len(a.items) == len(b.items) and not hasattr(a, "names") and not hasattr(b, "names"):
+            return STuple([self.merge_values(c, x, y) for x, y in zip(a.items, b.items)])
+        raise MergeAbort()
+
+    def try_nofork(self, fn, guard=None):
+        """run fn() without forking/raising under an optional guard; returns (ok, result)"""
+        c = self.ctx
+        c.nofork += 1
+        if guard is not None:
+            c.guards.append(guard)
+        trace_len = len(c.trace)
+        try:
+            return True, fn()
+        except MergeAbort:
+            return False, None
+        finally:
+            c.nofork -= 1
+            if guard is not None:
+                c.guards.pop()
+            assert len(c.trace) == trace_len
+
     # ------------------------------------------------------------------ exceptions
     def raise_exc(self, cls, msg="", node=None):
+        if self.ctx.nofork:
+            raise MergeAbort()
         where = f"line {getattr(node, 'lineno', '?')}" if node is not None else ""
         o = self.new_object(cls)
         o.fields["args"] = STuple([SStr(msg)])
@@ -539,6 +630,7 @@ class Interp:
         return None
 
     def getattr(self, v, name, node=None):
+        v = self.unopt(v)
         if isinstance(v, SObj):
             return self.obj_getattr(v, name, node)
         if isinstance(v, SModule):
@@ -755,9 +847,42 @@ class Interp:
         self.bind_args(fnode, args, kwargs, dflt, frame)
         key = f"{mod.__name__}:{getattr(live, '__qualname__', fnode.name)}"
         self.functions_entered[key] = self.functions_entered.get(key, 0) + 1
+        body = fnode.body
+        if self.depth == 0 and self.cut_at is not None:
+            k = find_stmt(body, self.cut_at)
+            if k is None:
+                raise Unsupported(f"cut point not found in {fnode.name}: {self.cut_at!r}")
+            self.depth += 1
+            try:
+                self.exec_block(body[:k], frame)
+            except ReturnSig as r:
+                return r.value
+            finally:
+                self.depth -= 1
+            raise CutReached(frame)
         self.depth += 1
         try:
-            self.exec_block(fnode.body, frame)
+            self.exec_block(body, frame)
+        except ReturnSig as r:
+            return r.value
+        finally:
+            self.depth -= 1
+        return NONE
+
+    def run_function_from(self, live, start_at, local_values):
+        """execute the tail of a function starting at the statement `start_at` (a top-level
+        statement of its body) from the given locals: second half of a cut-point proof"""
+        fnode, mod = func_node(live)
+        k = find_stmt(fnode.body, start_at)
+        if k is None:
+            raise Unsupported(f"start point not found in {fnode.name}: {start_at!r}")
+        frame = Frame(mod, fnode.name, None)
+        frame.locals.update(local_values)
+        key = f"{mod.__name__}:{live.__qualname__}"
+        self.functions_entered[key] = self.functions_entered.get(key, 0) + 1
+        self.depth += 1
+        try:
+            self.exec_block(fnode.body[k:], frame)
         except ReturnSig as r:
             return r.value
         finally:
@@ -964,6 +1089,37 @@ class Interp:
                 self.call_method(m, "__exit__", [NONE, NONE, NONE])
 
     def exec_If(self, s, frame):
+        if mergeable_if(s):
+            saved = dict(frame.locals)
+            ok, t = self.try_nofork(lambda: simp(self.truth(self.eval(s.test, frame))))
+            if ok and not z3.is_true(t) and not z3.is_false(t):
+                ok1, _ = self.try_nofork(lambda: self.exec_block(s.body, frame), guard=t)
+                then_locals = frame.locals
+                frame.locals = dict(saved)
+                if ok1:
+                    ok2, _ = self.try_nofork(lambda: self.exec_block(s.orelse, frame), guard=z3.Not(t))
+                    else_locals = frame.locals
+                    frame.locals = dict(saved)
+                    if ok2:
+                        try:
+                            merged = dict(saved)
+                            for k in set(then_locals) | set(else_locals):
+                                a, b = then_locals.get(k), else_locals.get(k)
+                                if a is None or b is None:
+                                    raise MergeAbort()
+                                merged[k] = self.merge_values(t, a, b)
+                            frame.locals = merged
+                            return
+                        except MergeAbort:
+                            frame.locals = dict(saved)
+            elif ok:
+                frame.locals = dict(saved)
+                if z3.is_true(t):
+                    self.exec_block(s.body, frame)
+                else:
+                    self.exec_block(s.orelse, frame)
+                return
+            frame.locals = dict(saved)
         v = self.eval(s.test, frame)
         if self.is_truthy(v):
             self.exec_block(s.body, frame)
@@ -1419,6 +1575,29 @@ class Interp:
         return SLambda(e, frame, frame.module)
 
     def eval_IfExp(self, e, frame):
+        if is_pure_expr(e):
+            def attempt():
+                t = simp(self.truth(self.eval(e.test, frame)))
+                if z3.is_true(t):
+                    return self.eval(e.body, frame)
+                if z3.is_false(t):
+                    return self.eval(e.orelse, frame)
+                c = self.ctx
+                c.guards.append(t)
+                try:
+                    a = self.eval(e.body, frame)
+                finally:
+                    c.guards.pop()
+                c.guards.append(z3.Not(t))
+                try:
+                    b = self.eval(e.orelse, frame)
+                finally:
+                    c.guards.pop()
+                return self.merge_values(t, a, b)
+
+            ok, r = self.try_nofork(attempt)
+            if ok:
+                return r
         if self.is_truthy(self.eval(e.test, frame)):
             return self.eval(e.body, frame)
         return self.eval(e.orelse, frame)
@@ -1434,6 +1613,34 @@ class Interp:
         if self.pure_mode:
             ts = [self.truth(self.eval(x, frame)) for x in e.values]
             return SBool(z3.And(ts) if isand else z3.Or(ts))
+        if is_pure_expr(e):
+            def attempt():
+                c = self.ctx
+                pushed = 0
+                try:
+                    vals = []
+                    for x in e.values:
+                        v = self.eval(x, frame)
+                        t = simp(self.truth(v))
+                        vals.append((v, t))
+                        g = t if isand else z3.Not(t)
+                        if z3.is_false(g):
+                            break
+                        c.guards.append(g)
+                        pushed += 1
+                finally:
+                    for _ in range(pushed):
+                        c.guards.pop()
+                # value: first operand that decides, else the last
+                res = vals[-1][0]
+                for v, t in reversed(vals[:-1]):
+                    cond = z3.Not(t) if isand else t
+                    res = self.merge_values(cond, v, res)
+                return res
+
+            ok, r = self.try_nofork(attempt)
+            if ok:
+                return r
         for i, x in enumerate(e.values):
             v = self.eval(x, frame)
             if i == len(e.values) - 1:
@@ -1864,3 +2071,42 @@ def assigned_names_direct(body):
 
 
 MUTATORS = {"append", "extend", "add", "update", "remove", "discard", "pop", "clear", "insert", "setdefault", "popitem", "sort", "reverse"}
+
+
+PURE_CALLS = {"len", "isinstance", "int", "str", "bool", "min", "max", "abs"}
+
+
+def is_pure_expr(e):
+    """syntactically free of side effects (calls limited to a few builtins)"""
+    for n in ast.walk(e):
+        if isinstance(n, ast.Call):
+            if not (isinstance(n.func, ast.Name) and n.func.id in PURE_CALLS):
+                return False
+        elif isinstance(n, (ast.NamedExpr, ast.Yield, ast.YieldFrom, ast.Await, ast.Lambda, ast.ListComp, ast.SetComp, ast.DictComp, ast.GeneratorExp, ast.Starred, ast.JoinedStr)):
+            return False
+    return True
+
+
+def mergeable_block(stmts):
+    for st in stmts:
+        if isinstance(st, ast.Pass):
+            continue
+        if isinstance(st, ast.Assign):
+            if not all(isinstance(t, ast.Name) for t in st.targets) or not is_pure_expr(st.value):
+                return False
+        elif isinstance(st, ast.AnnAssign):
+            if not isinstance(st.target, ast.Name) or (st.value is not None and not is_pure_expr(st.value)):
+                return False
+        elif isinstance(st, ast.AugAssign):
+            if not isinstance(st.target, ast.Name) or not is_pure_expr(st.value):
+                return False
+        elif isinstance(st, ast.If):
+            if not mergeable_if(st):
+                return False
+        else:
+            return False
+    return True
+
+
+def mergeable_if(s):
+    return is_pure_expr(s.test) and mergeable_block(s.body) and mergeable_block(s.orelse)
